@@ -142,7 +142,8 @@ def assess(spec, want=('ram', 'raj')):
                 return None
             a = np.asarray(col[name], dtype=float).reshape(nh, n) if nh else np.zeros((0, n))
             return [[float(v) for v in a[:, i]] for i in range(n)]
-        names = ['loads_min', 'loads_max', 'S_a', 'S_m', 'S_min', 'S_max', 'epsilon_a', 'epsilon_min', 'epsilon_max', 'is_closed_hysteresis', 'run_index', 'D', 'P_' + tag]
+        names = ['loads_min', 'loads_max', 'S_a', 'S_m', 'S_min', 'S_max', 'epsilon_a', 'epsilon_min', 'epsilon_max', 'epsilon_min_LF', 'epsilon_max_LF',
+                 'is_closed_hysteresis', 'run_index', 'D', 'P_' + tag]
         if tag == 'RAM':
             names.append('N')
         else:
